@@ -111,6 +111,9 @@ def run_units(unit_names, tier, tag, only_props=None):
     obls = []
     with Scratch(tag) as sc:
         info["edits"] = prepare(sc, units)
+        if os.environ.get("VERIF_PREPARE_ONLY"):
+            os.environ["VERIF_KEEP_SCRATCH"] = "1"
+            raise Undecided("prepared scratch only: %s" % sc.root)
         groups = {}
         for u in units:
             for o in u["cfg"]["obligations"]:
